@@ -171,3 +171,16 @@ package decoder
 //@   assert before invoke:ReferenceTargets#2 : [C09] extendsByOne(arg1.ParentAddress, targetCtx.ParentAddress) && typeis(arg1.ParentAddress[len(targetCtx.ParentAddress)], "lang.IndexStep") && as(arg1.ParentAddress[len(targetCtx.ParentAddress)], "lang.IndexStep").Key == cty.NumberIntVal(int64(i))
 //@ contract (decoder.Tuple).ReferenceTargets (tuple, ctx, targetCtx) (result)
 //@   assert before invoke:ReferenceTargets#2 : [C09] extendsByOne(arg1.ParentAddress, targetCtx.ParentAddress) && typeis(arg1.ParentAddress[len(targetCtx.ParentAddress)], "lang.IndexStep") && as(arg1.ParentAddress[len(targetCtx.ParentAddress)], "lang.IndexStep").Key == cty.NumberIntVal(int64(i))
+
+// ---- C10: origins. Two origins are merged only if they are the same reference written at the same place;
+// ---- the self.* gate handed to the origin constructor is the one the body enables.
+//@ contract decoder.appendOrigins (origins, newOrigins) (result)
+//@   modifies origins[*]
+//@   assert before invoke:AppendConstraints#1 : [C10] existingOrigin.Address().Equals(newMatchableOrigin.Address()) && rangesEqual(existingOrigin.OriginRange(), newMatchableOrigin.OriginRange())
+//@ contract (decoder.Any).refOriginsForNonComplexExpr (a, ctx) (result)
+//@   assert before reference.TraversalToLocalOrigin#1 : [C10] arg2 == schema.ActiveSelfRefsFromContext(ctx)
+//@   assert before reference.TraversalToLocalOrigin#2 : [C10] arg2 == schema.ActiveSelfRefsFromContext(ctx)
+//@ contract (decoder.Reference).ReferenceOrigins (ref, ctx) (result)
+//@   assert before reference.TraversalToLocalOrigin#1 : [C10] arg2 == schema.ActiveSelfRefsFromContext(ctx)
+//@   assert before reference.TraversalToLocalOrigin#2 : [C10] arg2 == schema.ActiveSelfRefsFromContext(ctx)
+//@   assert before reference.TraversalToLocalOrigin#3 : [C10] arg2 == schema.ActiveSelfRefsFromContext(ctx)
